@@ -180,6 +180,19 @@ pub async fn transaction(cx: &mut Context<'_>, tx_id: &str) -> Result<Json, KipE
             format!("this Nexus has no transaction {tx_id:?}"),
         )
     })?;
+    // One journal row read by id is still the journal: its change list names
+    // element ids, and goes through the same filter `HISTORY` applies (§103).
+    // A transaction that touched nothing this caller may read answers exactly
+    // as one that never happened, because `HISTORY SPACE` would not list it
+    // either.
+    let mut rows = vec![row];
+    visible_changes(cx, &mut rows).await;
+    let row = rows.pop().ok_or_else(|| {
+        KipError::new(
+            KipErrorCode::TransactionUnknown,
+            format!("this Nexus has no transaction {tx_id:?}"),
+        )
+    })?;
     Ok(entry(&row, None))
 }
 
@@ -198,6 +211,15 @@ pub async fn transaction_by_key(cx: &mut Context<'_>, key: &str) -> Result<Json,
                 ),
             )
         })?;
+    // The caller chose the key, so that the transaction committed is theirs to
+    // know — and must stay knowable, or a lost response would be retried. The
+    // change list is filtered like any other view of the journal.
+    let mut rows = vec![row.clone()];
+    visible_changes(cx, &mut rows).await;
+    let row = rows.pop().unwrap_or(TransactionRow {
+        changes: Vec::new(),
+        ..row
+    });
     Ok(entry(&row, None))
 }
 
